@@ -20,10 +20,10 @@ def rets (c : Cfg) (sched : List (Tid × Act)) : Option (List (Tid × GRet)) :=
     | .ret x => some (t, x)
     | _ => none
 
-/-- The atomic events of a run, rendered as the harness prints them. -/
-def trace (c : Cfg) (sched : List (Tid × Act)) : Option (List String) :=
+/-- The atomic events of a run (thread, kind, location, values: the words of the harness line `T <tid> A …`). -/
+def trace (c : Cfg) (sched : List (Tid × Act)) : Option (List (Tid × Ev)) :=
   ((model c).run init sched).map fun r => r.2.filterMap fun (t, o) => match o with
-    | .ev e => some s!"T {t} A {e}"
+    | .ev e => some (t, e)
     | _ => none
 
 /-- Value and tag of the slots `1 .. cap` after a run. -/
